@@ -309,6 +309,88 @@ func (p *prop) runModule(c core.Case, w *core.Worker, res *core.Result, r *rand.
 	}
 }
 
+// runWorkspace: one run spanning two modules of a go.work workspace whose go.mod files differ in what the formatter
+// cares about (go directive on either side of 1.13: 0644 vs 0o644; a module path without a dot: import grouping).
+// Each module's package alone vs both together, both orders.
+func (p *prop) runWorkspace(c core.Case, w *core.Worker, res *core.Result, r *rand.Rand, idx int) {
+	root := filepath.Join(w.Scratch, fmt.Sprintf("c05ws-%d-%d", c.ID, idx))
+	pristine := root + "-pristine"
+	defer os.RemoveAll(root)
+	defer os.RemoveAll(pristine)
+	type wsmod struct{ dir, path, gov string }
+	mods := []wsmod{{"alpha", "example.com/alpha", "1.24"}, {"beta", "legacy/beta", "1.12"}, {"gamma", "corp/gamma/v2", []string{"1.18", "1.21", "1.24"}[r.Intn(3)]}}
+	r.Shuffle(len(mods), func(i, j int) { mods[i], mods[j] = mods[j], mods[i] })
+	mods = mods[:2+r.Intn(2)]
+	m := &fixture.Module{Root: pristine, Path: "workspace", GoVersion: "1.24"}
+	work := "go 1.24\n\nuse (\n"
+	gs := specgen.GenSpec{Name: "fmtprobe", Pkg: map[string]specgen.Behav{}, Def: specgen.Behav{Mode: "render"}}
+	for _, wm := range mods {
+		work += "\t./" + wm.dir + "\n"
+		m.MustWrite(wm.dir+"/go.mod", "module "+wm.path+"\n\ngo "+wm.gov+"\n")
+		m.MustWrite(wm.dir+"/pkg/types.go", "// +gengo:fmtprobe\npackage pkg\n\ntype One struct{ A int }\n\ntype Two int\n")
+		m.MustWrite(wm.dir+"/kinds/kinds.go", "package kinds\n\ntype Kind string\n")
+		gs.Pkg[wm.path+"/pkg"] = specgen.Behav{Mode: "render", Salt: "s", Imports: []string{"os.FileMode", wm.path + "/kinds.Kind", "bytes.Buffer"}, Code: "var _ = 0644"}
+	}
+	work += ")\n"
+	m.MustWrite("go.work", work)
+	run := func(entries []string) (map[string]map[string]string, string) {
+		_ = os.RemoveAll(root)
+		if err := fixture.CopyTree(pristine, root); err != nil {
+			panic(err)
+		}
+		mm := &fixture.Module{Root: root, Path: "workspace", GoVersion: "1.24"}
+		rr := specgen.RunChild(w.Scratch, specgen.RunSpec{Dir: root, Args: specgen.Args{Entrypoint: entries, OutputFileBaseName: "zz_generated"}, Gens: []specgen.GenSpec{gs}, Workspace: true})
+		res.Inc("gengo_runs")
+		res.Inc("workspace_runs")
+		if rr.Failed {
+			return nil, rr.Err + rr.Panic + rr.ExitStatus
+		}
+		out := map[string]map[string]string{}
+		for _, wm := range mods {
+			out[wm.dir] = filesOf(mm, wm.dir+"/pkg")
+		}
+		return out, ""
+	}
+	alone := map[string]map[string]string{}
+	for _, wm := range mods {
+		o, errS := run([]string{"./" + wm.dir + "/pkg"})
+		if errS != "" {
+			res.Inconclusive = append(res.Inconclusive, "workspace run of "+wm.dir+" alone failed: "+clip(errS, 600))
+			return
+		}
+		if len(o[wm.dir]) == 0 {
+			res.Inconclusive = append(res.Inconclusive, "workspace run of "+wm.dir+" alone produced no file")
+			return
+		}
+		alone[wm.dir] = o[wm.dir]
+	}
+	for _, rev := range []bool{false, true} {
+		var entries []string
+		for _, wm := range mods {
+			entries = append(entries, "./"+wm.dir+"/pkg")
+		}
+		if rev {
+			for i, j := 0, len(entries)-1; i < j; i, j = i+1, j-1 {
+				entries[i], entries[j] = entries[j], entries[i]
+			}
+		}
+		o, errS := run(entries)
+		res.Evals++
+		variant := fmt.Sprintf("workspace entrypoints %v", entries)
+		res.NonTrivial(fmt.Sprintf("%d|%d|%s", c.Seed, idx, variant))
+		if errS != "" {
+			res.Fail("execute", "execute-error workspace", variant+": "+clip(errS, 800), nil)
+			continue
+		}
+		for _, wm := range mods {
+			res.Inc("package_outputs_compared_with_alone_run")
+			if df := diff(alone[wm.dir], o[wm.dir]); df != "" {
+				res.Fail("independent-of-run", "workspace of modules", fmt.Sprintf("%s: the files of %s/pkg (module %s, go %s) differ from the run of that package alone:\n%s", variant, wm.dir, wm.path, wm.gov, clip(df, 1200)), nil)
+			}
+		}
+	}
+}
+
 func clip(s string, n int) string {
 	if len(s) <= n {
 		return s
@@ -323,6 +405,7 @@ func (p *prop) Run(c core.Case, w *core.Worker) core.Result {
 	r := rand.New(rand.NewSource(c.Seed))
 	for i := 0; i < pa.N; i++ {
 		p.runModule(c, w, &res, r, i)
+		p.runWorkspace(c, w, &res, r, i)
 	}
 	return res
 }
